@@ -23,6 +23,8 @@ import (
 	"container/list"
 	"errors"
 	"fmt"
+	"math"
+	"math/big"
 	"strconv"
 	"strings"
 	"unicode"
@@ -240,7 +242,7 @@ func Transform(jsonData []byte) (result []byte, e error) {
 			}
 		}
 		// Apparently not so we assume that it is a I-JSON number
-		ieeeF64, err := strconv.ParseFloat(value, 64)
+		ieeeF64, err := parseNumber(value)
 		checkError(err)
 		value, err = NumberToJSON(ieeeF64)
 		checkError(err)
@@ -381,4 +383,53 @@ func Transform(jsonData []byte) (result []byte, e error) {
 		index++
 	}
 	return []byte(transformed), globalError
+}
+
+// maxParseFloatLength is the length of a number token up to which strconv.ParseFloat is relied upon. ParseFloat
+// keeps at most 800 digits of a literal and then misplaces the decimal point (a 1 followed by 800 zeros and
+// "e-800" comes out as 0.1) and stops reading an exponent at 10000.
+const maxParseFloatLength = 700
+
+// parseNumber converts a number token to the nearest IEEE-754 double. Tokens that are too long for
+// strconv.ParseFloat are evaluated exactly.
+func parseNumber(token string) (float64, error) {
+	if len(token) <= maxParseFloatLength {
+		return strconv.ParseFloat(token, 64)
+	}
+
+	mantissa, exponent := token, "0"
+	if i := strings.IndexAny(token, "eE"); i >= 0 {
+		mantissa, exponent = token[:i], token[i+1:]
+	}
+
+	exp, ok := new(big.Int).SetString(strings.TrimPrefix(exponent, "+"), 10)
+	if !ok {
+		return strconv.ParseFloat(token, 64)
+	}
+
+	if strings.Trim(mantissa, "+-.0") == "" {
+		// zero, whatever the exponent
+		return strconv.ParseFloat(mantissa, 64)
+	}
+
+	if exp.CmpAbs(big.NewInt(int64(len(token))+400)) > 0 {
+		// far outside the range of a double whatever the digits are: keep the digits out of it
+		if exp.Sign() > 0 {
+			return strconv.ParseFloat("1e999", 64)
+		}
+
+		return strconv.ParseFloat("0", 64)
+	}
+
+	exact, ok := new(big.Rat).SetString(token)
+	if !ok {
+		return strconv.ParseFloat(token, 64)
+	}
+
+	value, _ := exact.Float64()
+	if math.IsInf(value, 0) {
+		return strconv.ParseFloat("1e999", 64)
+	}
+
+	return value, nil
 }
